@@ -254,6 +254,28 @@ fn enc(n: &Node, ctx: Ctx, out: &mut Vec<u8>) -> Result<(), String> {
     Ok(())
 }
 
+/// Key bytes of a multisig node in the order they appear in the script.
+pub fn multi_keys_in_script_order(n: &Node, ctx: Ctx) -> Result<Vec<Vec<u8>>, String> {
+    let (ks, sorted_cs, sorted_a) = match n {
+        Node::Multi(_, ks) => (ks, false, false),
+        Node::SortedMulti(_, ks) => (ks, true, false),
+        Node::MultiA(_, ks) => (ks, false, false),
+        Node::SortedMultiA(_, ks) => (ks, false, true),
+        _ => return Err("not a multisig node".into()),
+    };
+    let mut keys: Vec<Vec<u8>> = Vec::new();
+    for key in ks {
+        keys.push(key_bytes(key, ctx)?);
+    }
+    if sorted_cs {
+        keys.sort_by_key(|k| compressed_form(k));
+    }
+    if sorted_a {
+        keys.sort();
+    }
+    Ok(keys)
+}
+
 fn compressed_form(k: &[u8]) -> Vec<u8> {
     if k.len() == 65 {
         let mut v = vec![if k[64] & 1 == 1 { 3u8 } else { 2u8 }];
